@@ -167,6 +167,7 @@ def run_unit(unit_name, repo, workdir, canary=False):
         # refutations stand even if another function ran into a tool limit
         out["status"] = "fail"
         out["tool_limits"] = [f["obligation"] for f in out["failures"] if f["kind"] == "tool"]
+        out["tool_limit_items"] = [f["item_idx"] for f in out["failures"] if f["kind"] == "tool"]
         out["failures"] = [f for f in out["failures"] if f["kind"] == "refuted"]
     else:
         out["status"] = "undecided"
